@@ -165,6 +165,12 @@ type netFeeArg struct {
 	Fee   sdk.Int `json:"fee"`
 }
 
+type liqParamsArg struct {
+	App    uint64   `json:"app"`
+	Keys   []string `json:"keys"`
+	Values []string `json:"values"`
+}
+
 type cfgFn func(a *chain.App, ctx sdk.Context, raw json.RawMessage) error
 
 func dec[T any](raw json.RawMessage) (T, error) {
@@ -281,6 +287,27 @@ var cfgKinds = map[string]cfgFn{
 			return err
 		}
 		return a.EsmKeeper.AddESMTriggerParamsForApp(ctx, &v)
+	},
+	"cfg.rewards.vaultinterest": func(a *chain.App, ctx sdk.Context, raw json.RawMessage) error {
+		v, err := dec[uint64](raw)
+		if err != nil {
+			return err
+		}
+		return a.Rewardskeeper.WhitelistAppIDVault(ctx, v)
+	},
+	"cfg.rewards.lockerasset": func(a *chain.App, ctx sdk.Context, raw json.RawMessage) error {
+		v, err := dec[[2]uint64](raw)
+		if err != nil {
+			return err
+		}
+		return a.Rewardskeeper.WhitelistAssetForInternalRewards(ctx, v[0], v[1])
+	},
+	"cfg.liquidity.params": func(a *chain.App, ctx sdk.Context, raw json.RawMessage) error {
+		v, err := dec[liqParamsArg](raw)
+		if err != nil {
+			return err
+		}
+		return a.LiquidityKeeper.UpdateGenericParams(ctx, v.App, v.Keys, v.Values)
 	},
 	// environment: the oracle. Band IBC results are the environment of the chain; the harness stubs them with the
 	// keepers' own setters (as the repository tests do).
